@@ -106,12 +106,12 @@ Section BehaveProofs.
 
   (* a whole stack is transparent on a call whose keywords are all declared: it returns what f returns; and when f
      raises and no try_* wrapper is in the stack the same exception comes out *)
-  Theorem stack_transparent (none : R) (inj : V -> R) (s : sig V) chain (f : call V -> lres R) c :
-    (forall kv, In kv (snd c) -> In (fst kv) (pos s)) -> ~ In "axis"%string (map fst (snd c)) ->
-    (forall r, f c = LOk r -> apply_chain none inj s chain f c = LOk r) /\
-    (forall e, f c = LErr e -> ~ In TTry chain -> ~ In TBack chain -> apply_chain none inj s chain f c = LErr e).
+  Theorem stack_transparent (none : R) (inj : V -> R) pdcall (s : sig V) chain (f : call V -> lres R) c :
+    (forall kv, In kv (snd c) -> In (fst kv) (pos s)) -> ~ In "axis"%string (map fst (snd c)) -> pdcall s c = c ->
+    (forall r, f c = LOk r -> apply_chain none inj pdcall s chain f c = LOk r) /\
+    (forall e, f c = LErr e -> ~ In TTry chain -> ~ In TBack chain -> apply_chain none inj pdcall s chain f c = LErr e).
   Proof.
-    intros Hk Hax. assert (Hl : loops_call s c = c).
+    intros Hk Hax Hpd. assert (Hl : loops_call s c = c).
     { assert (Ha : (fst c, adel "axis"%string (snd c)) = c).
       { destruct c as [a k]. simpl in *. f_equal. unfold adel. apply filter_all. intros kv Hkv.
         destruct (String.eqb_spec "axis"%string (fst kv)) as [E|E]; auto. exfalso. apply Hax. rewrite E. apply in_map. auto. }
@@ -120,9 +120,9 @@ Section BehaveProofs.
     assert (Hc : (fst c, named_kw s (snd c)) = c).
     { destruct c as [a k]. simpl in *. unfold named_kw. rewrite filter_all; auto. intros kv Hkv. apply inl_In. auto. }
     induction chain as [|t chain [IH1 IH2]]; simpl; [split; auto|]. split.
-    - intros r Hr. specialize (IH1 r Hr). destruct t; simpl; unfold try_value, try_back, kwargs_support; rewrite ?Hc, ?Hl, IH1; reflexivity.
-    - intros e He Ht Hb. assert (IH : apply_chain none inj s chain f c = LErr e) by (apply IH2; auto).
-      destruct t; simpl; unfold kwargs_support; rewrite ?Hc, ?Hl; auto; exfalso; [apply Ht|apply Hb]; left; reflexivity.
+    - intros r Hr. specialize (IH1 r Hr). destruct t; simpl; unfold try_value, try_back, kwargs_support; rewrite ?Hc, ?Hl, ?Hpd, IH1; reflexivity.
+    - intros e He Ht Hb. assert (IH : apply_chain none inj pdcall s chain f c = LErr e) by (apply IH2; auto).
+      destruct t; simpl; unfold kwargs_support; rewrite ?Hc, ?Hl, ?Hpd; auto; exfalso; [apply Ht|apply Hb]; left; reflexivity.
   Qed.
 End BehaveProofs.
 
